@@ -2,6 +2,7 @@ import WtfModel.Model.Search
 import WtfModel.Model.NormQ
 import WtfModel.Model.Legacy0
 import WtfModel.Model.Tfidf
+import WtfModel.Model.Boosts
 import WtfModel.Gen.Constants
 import Driver.Util
 
@@ -13,6 +14,10 @@ import Driver.Util
     fz -|<idx>:<score>,..
     search <q> <limit> <boosts> <pipelineOnly> <pipelineBoost> <useFuzzy> <thr> <useNLP> <cap> <allPlat> <platforms> <noCross>
     tokens <hex> | passes <doc> <allPlat> <platforms> <noCross> <pipelineOnly>
+  domain `boosts` (same state, harness/dom_boosts.go): the MODEL's NLP layer (Model/Boosts.lean, Model/Nlp.lean)
+    mpq <hex q> → pq <actions> <targets> <keywords> <enhanced> <intent>
+    mctx <hex q> → ctx <actionTerms> <targetTerms> <keywordTerms> <hints> <contexts> <intent>
+    mib <hex q> → ib <f:,..|->        mcb <hex q> → cb <f:,..|->       (one value per document)
 -/
 namespace Driver.Search
 open Wtf Wtf.Search Wtf.Index
@@ -68,6 +73,12 @@ def fmtResults (r : Except Fuzzy.Panic (List (Nat × Float))) : String :=
   match r with
   | .error _ => "panic:index-out-of-range"
   | .ok l => l.foldl (fun acc (d, s) => acc ++ s!" {d} {fmtFloat s}") s!"res {l.length}"
+
+def fmtBytesList (l : List Bytes) : String :=
+  if l.isEmpty then "-" else ",".intercalate (l.map (fun b => if b.isEmpty then "_" else Bytes.toHex b))
+
+def fmtFloatList (l : List Float) : String :=
+  if l.isEmpty then "-" else ",".intercalate (l.map fmtFloat)
 
 def logOf (d : DS) : Nat → Nat → Float := fun _ dc => ((d.lg.find? (·.1 == dc)).map (·.2)).getD 0.0
 
@@ -144,6 +155,32 @@ def step (d : DS) (l : String) : DS × String :=
         | some idx => Tfidf.search d.ri Float.sqrt 0.01 idx q d.db.size
         | none => []
       (d, r.foldl (fun acc (i, s) => acc ++ s!" {i} {fmtFloat s}") s!"tf {r.length}")
+    | none => (d, "bad-op")
+  | ["mpq", h] =>
+    match Bytes.ofHex h with
+    | some q =>
+      let n : NlpOut Float := Boosts.nlpOut d.ri d.db.toList q
+      let a := (Nlp.analyse d.ri q).1
+      (d, s!"pq {fmtBytesList n.actions} {fmtBytesList n.targets} {fmtBytesList n.keywords} {fmtBytesList n.enhanced} {Bytes.toHex a.intent}")
+    | none => (d, "bad-op")
+  | ["mctx", h] =>
+    match Bytes.ofHex h with
+    | some q =>
+      let an := Nlp.analyse d.ri q
+      let x := Boosts.buildCtx Boosts.genSpec d.ri an.1 an.2
+      (d, s!"ctx {fmtBytesList x.actionTerms} {fmtBytesList x.targetTerms} {fmtBytesList x.keywordTerms} {fmtBytesList x.hints} {fmtBytesList x.contexts} {Bytes.toHex x.intent}")
+    | none => (d, "bad-op")
+  | ["mib", h] =>
+    match Bytes.ofHex h with
+    | some q =>
+      let n : NlpOut Float := Boosts.nlpOut d.ri d.db.toList q
+      (d, "ib " ++ fmtFloatList ((List.range d.db.size).map n.intentBoost))
+    | none => (d, "bad-op")
+  | ["mcb", h] =>
+    match Bytes.ofHex h with
+    | some q =>
+      let n : NlpOut Float := Boosts.nlpOut d.ri d.db.toList q
+      (d, "cb " ++ fmtFloatList ((List.range d.db.size).map n.cascade))
     | none => (d, "bad-op")
   | ["bufcap", t, l] =>
     match intOf? t, intOf? l with
